@@ -34,6 +34,7 @@ pub fn all() -> Vec<Box<dyn Family>> {
         Box::new(parse_rt::Literals),
         Box::new(query::QueryTotal),
         Box::new(query::QueryAgree),
+        Box::new(query::HoverAll),
         Box::new(scoping::Scoping),
         Box::new(patterns::Patterns),
         Box::new(evalorder::EvalOrder),
